@@ -8,6 +8,7 @@ CONSTANTS
   FlushBounded = TRUE
   CommitGivesUp = TRUE
   SwallowCancel = TRUE
+  ConnLossAtClose = FALSE
 INVARIANT TypeOK
 INVARIANT NothingLeft
 INVARIANT StopReturnsNormally
